@@ -611,6 +611,20 @@ def emit_item(item, opts, drops):
                 if not ok:
                     lost_hints.append(anchor)
                     continue
+                if where == "closure":
+                    # contract of an inline closure `|params| EXPR` (anchor = text starting at its first `|`):
+                    # re-bracketed as `|params| <text> { EXPR }` -- Verus's only form for a closure with an `ensures`;
+                    # params and EXPR stay verbatim (same kind of re-bracketing as for `const` items with a contract)
+                    ks = [k for k in sig if item.first <= k <= item.last]
+                    k0 = next(i for i, k in enumerate(ks) if s.toks[k][1] == pos)
+                    k1 = k0 if s.tt(ks[k0]) == "||" else next(i for i in range(k0 + 1, len(ks)) if s.tt(ks[i]) == "|")
+                    e = k1 + 1
+                    while e < len(ks) and s.tt(ks[e]) not in (",", ")", "]", "}", ";"):
+                        e = ks.index(s.match[ks[e]], e) + 1 if s.tt(ks[e]) in OPEN else e + 1
+                    add_after(ks[k1], " " + " ".join(text.split()) + " {")
+                    add_after(ks[e - 1], " }")
+                    drops.append("closure re-bracketed as `|params| -> (r: T) ensures .. { <body> }` (params and body verbatim)")
+                    continue
                 if where == "before":
                     ls = s.text.rfind("\n", 0, pos) + 1
                     tk = next(k for k in range(item.first, item.last + 1) if s.toks[k][2] > ls and s.toks[k][0] != "ws")
